@@ -6,7 +6,7 @@ root = os.path.dirname(os.path.dirname(os.path.abspath(__file__)))
 log = open(sys.argv[1] if len(sys.argv) > 1 else os.path.join(root, 'sim/target/sensitivity-full.log')).read().splitlines()
 rows = []
 for l in log:
-    m = re.match(r'(CAUGHT|MISSED\S*)\s+(C\d+)\s+(\S+)\s+tests=(\S+)\s+([\d.]+)s\s*(.*)', l)
+    m = re.match(r'(CAUGHT|OUTSIDE-CLAIM|MISSED\S*)\s+(C\d+)\s+(\S+)\s+tests=(\S+)\s+([\d.]+)s\s*(.*)', l)
     if not m:
         continue
     verdict, prop, name, tests, secs, rest = m.groups()
@@ -27,4 +27,5 @@ for r in rows:
     print('| %s | `%s` | %s | %s | %s | %s | %s |' % r)
 c = sum(1 for r in rows if r[4] == 'CAUGHT')
 print()
-print('%d broken trees, %d caught by the quick tier of the check for the property they break, %d missed.' % (len(rows), c, len(rows) - c))
+o = sum(1 for r in rows if r[4] == 'OUTSIDE-CLAIM')
+print('%d broken trees, %d caught by the quick tier of the check for the property they break, %d outside what the check claims (stated), %d missed.' % (len(rows), c, o, len(rows) - c - o))
